@@ -61,6 +61,10 @@ static const struct session SESSIONS[] = {
      {M(0, "{\"id\":1,\"method\":\"add\",\"params\":{\"path\":\"o\",\"value\":1}}"), M(1, "{\"id\":1,\"method\":\"fetch\",\"params\":{\"id\":\"f\"}}"), {ST_BYTES, 0, "\0\0\x02\x01", 4}, M(1, "{\"id\":2,\"method\":\"get\",\"params\":{}}"), END}},
     {"owner-leaves", 2, 2,
      {M(0, "{\"id\":1,\"method\":\"add\",\"params\":{\"path\":\"gone\",\"value\":1}}"), M(1, "{\"id\":1,\"method\":\"fetch\",\"params\":{\"id\":\"f\"}}"), M(1, "{\"id\":2,\"method\":\"set\",\"params\":{\"path\":\"gone\",\"value\":2}}"), FINC(0), M(1, "{\"id\":3,\"method\":\"get\",\"params\":{}}"), END}},
+    {"send-and-close", 2, 0,
+     {M(0, "{\"id\":1,\"method\":\"add\",\"params\":{\"path\":\"sc\",\"value\":1}}"), M(1, "{\"id\":1,\"method\":\"fetch\",\"params\":{\"id\":\"f\"}}"), M(0, "{\"id\":2,\"method\":\"change\",\"params\":{\"path\":\"sc\",\"value\":2}}"), FINC(0), M(1, "{\"id\":2,\"method\":\"get\",\"params\":{}}"), END}},
+    {"send-and-close-ws", 2, 1,
+     {M(1, "{\"id\":1,\"method\":\"fetch\",\"params\":{\"id\":\"f\"}}"), M(0, "{\"id\":1,\"method\":\"add\",\"params\":{\"path\":\"sw\",\"value\":1}}"), M(0, "{\"method\":\"change\",\"params\":{\"path\":\"sw\",\"value\":2}}"), FINC(0), M(1, "{\"id\":2,\"method\":\"get\",\"params\":{}}"), END}},
     {"timeout", 2, 0,
      {M(0, "{\"id\":1,\"method\":\"add\",\"params\":{\"path\":\"slow\"}}"), M(1, "{\"id\":1,\"method\":\"call\",\"params\":{\"path\":\"slow\",\"timeout\":0.5}}"), CLK(500000000L), M(1, "{\"id\":2,\"method\":\"info\"}"), {ST_MSG, 0, "@reply-result", 0}, M(0, "{\"id\":2,\"method\":\"info\"}"), END}},
     {"ws-ping-between", 1, 1,
@@ -212,7 +216,9 @@ static void run_sessions(void)
 	const struct session *s = session_at(si);
 	int nsteps = count_steps(s);
 	int pairs = (int)xp_param("pairs", 0);
-	int kind = xp_choose(pairs ? 6 : 5, XP_SCENARIO, "schedule-kind"); /* 0 baseline(identity), 1 single split, 2 single bytes, 3 coalesce, 4 prefix ride, 5 pair of splits */
+	static const int KINDS[] = {0, 1, 2, 3, 4, 6, 5};
+	int kind = KINDS[xp_choose(pairs ? 7 : 6, XP_SCENARIO, "schedule-kind")]; /* 0 baseline(identity), 1 single split, 2 single bytes, 3 coalesce, 4 prefix ride, 5 pair of splits, 6 end of stream in the same batch as the last message */
+	int fin_ride = -1;
 	/* schedule parameters are chosen up front so that the twin (baseline) and the primary consume the same choice prefix */
 	int sp_step[2] = {-1, -1}, sp_pos[2] = {0, 0}, sp_mode[2] = {0, 0};
 	int bytes_mode = 0, group_mask = 0, ride_at = -1, ride_len = 0;
@@ -236,6 +242,8 @@ static void run_sessions(void)
 			sp_pos[1] = reduced_pos(ml1, xp_choose(NREDUCED, XP_SCENARIO, "split-pos-2"));
 		}
 		sp_mode[0] = sp_mode[1] = xp_choose(2, XP_SCENARIO, "split-mode");
+	} else if (kind == 6) {
+		fin_ride = xp_choose(nsteps, XP_SCENARIO, "fin-step");
 	} else if (kind == 2) {
 		bytes_mode = xp_choose(2, XP_SCENARIO, "bytes-mode");
 	} else if (kind == 3) {
@@ -288,6 +296,7 @@ static void run_sessions(void)
 		jx_settle();
 	}
 	nfs = nsteps;
+	bool fin_done[4] = {false, false, false, false};
 	int run_len = 0; /* position inside a run of consecutive same-connection byte steps (for coalescing) */
 	struct bytebuf held = {0};
 	int held_conn = -1;
@@ -295,7 +304,9 @@ static void run_sessions(void)
 		struct fstep *f = &fs[i];
 		materialise(s, i, f);
 		if (f->kind == ST_FIN) {
-			sim_client_fin(conn[f->conn]);
+			if (!fin_done[f->conn]) {
+				sim_client_fin(conn[f->conn]);
+			}
 			jx_settle();
 			continue;
 		}
@@ -392,6 +403,12 @@ static void run_sessions(void)
 				sim_client_send(cid, p, len);
 			}
 		}
+		/* end of stream rides in the same batch: the client's FIN follows its last message before the daemon runs */
+		if (vary && kind == 6 && fin_ride == i + 1 && i + 1 < nsteps && s->steps[i + 1].kind == ST_FIN && s->steps[i + 1].conn == f->conn) {
+			applicable = true;
+			sim_client_fin(cid);
+			fin_done[f->conn] = true;
+		}
 		/* prefix ride: a proper prefix of the NEXT step (another connection) is delivered in this very batch */
 		ride_fd = 0;
 		if (vary && kind == 4 && ride_at == i && i + 1 < nsteps && s->steps[i + 1].conn != f->conn && (s->steps[i + 1].kind == ST_MSG || s->steps[i + 1].kind == ST_BYTES) && s->steps[i + 1].text[0] != '@') {
@@ -422,7 +439,7 @@ static void run_sessions(void)
 	if (mine.len != other.len || memcmp(mine.p, other.p, mine.len) != 0) {
 		xp_logf("---- this schedule ----\n%s---- baseline schedule ----\n%s", (char *)mine.p, (char *)other.p);
 		char key[200];
-		static const char *const KN[] = {"identity", "single-split", "single-bytes", "coalesce", "prefix-ride", "pair-split"};
+		static const char *const KN[] = {"identity", "single-split", "single-bytes", "coalesce", "prefix-ride", "pair-split", "fin-in-same-batch"};
 		snprintf(key, sizeof(key), "output-depends-on-segmentation:%s:session=%s", KN[kind], s->name);
 		xp_fail(key, "session '%s': schedule %s (split step %d pos %d mode %d / step %d pos %d; bytes-mode %d; grouping %d; ride at %d len %d order %d) produced different output than one-chunk-per-message delivery", s->name, KN[kind], sp_step[0], sp_pos[0], sp_mode[0], sp_step[1], sp_pos[1], bytes_mode, group_mask, ride_at, ride_len, ride_order);
 	}
@@ -593,6 +610,6 @@ const struct driver drv_c09 = {
     .name = "c09",
     .property = "C09",
     .run = run,
-    .rule = "section 0: 15 multi-connection sessions (two of them with messages of 258, 339 and the maximal 512 / 504 bytes; raw and websocket, fetch, routed requests, batches, errors, zero and oversize length prefixes, ping/pong, owner leaving, timeout) x delivery schedules {every single split point of every message and of every websocket upgrade request, with and without a would-block in between; all single bytes (queued at once / one readiness event per byte); every coalescing of runs of consecutive messages of one connection; a proper prefix of every length of the next message of another connection riding in the same batch in both dispatch orders; (thorough) pairs of split points}, each compared with the one-chunk-per-message baseline run as a twin; section 1: 13 truncated / over-long message shapes x 2 transports x 7 fresh-memory fill bytes x 6 residues of an earlier long message, compared with a reference run; section 2: length prefixes 0, max-1, max, max+1, 2^31, 2^32-1, 65536 x split positions of the prefix; non-trivial = applicable schedules",
+    .rule = "section 0: 17 multi-connection sessions (two of them with messages of 258, 339 and the maximal 512 / 504 bytes; raw and websocket, fetch, routed requests, batches, errors, zero and oversize length prefixes, ping/pong, owner leaving, timeout) x delivery schedules {every single split point of every message and of every websocket upgrade request, with and without a would-block in between; all single bytes (queued at once / one readiness event per byte); every coalescing of runs of consecutive messages of one connection; a proper prefix of every length of the next message of another connection riding in the same batch in both dispatch orders; the client's end of stream arriving in the same batch as its last message; (thorough) pairs of split points}, each compared with the one-chunk-per-message baseline run as a twin; section 1: 13 truncated / over-long message shapes x 2 transports x 7 fresh-memory fill bytes x 6 residues of an earlier long message, compared with a reference run; section 2: length prefixes 0, max-1, max, max+1, 2^31, 2^32-1, 65536 x split positions of the prefix; non-trivial = applicable schedules",
     .assumptions = "schedule parameters that do not denote a schedule of the chosen session (split position beyond the message) end the run at once and are not counted|coalescing is only applied to messages that are adjacent in the session, so the completion order of whole messages is preserved",
 };
